@@ -101,6 +101,9 @@ func init() {
 			tx("A send 10 TOKB gas TOKB (pool route)", transaction.TypeSend, A, transaction.SendData{Coin: CoinTokB, To: B.Addr, Value: e18(10)}, CoinTokB),
 			tx("A send 1 BIP gas COINA (both routes, pool cheaper)", transaction.TypeSend, A, transaction.SendData{Coin: 0, To: B.Addr, Value: e18(1)}, CoinCoinA),
 			tx("B send 1 BIP gas MAXED (both routes, reserve cheaper)", transaction.TypeSend, B, transaction.SendData{Coin: 0, To: A.Addr, Value: e18(1)}, CoinMaxed),
+			// the bought coin pays the fee through its pool (nothing is burnt from the curve): the supply bound is judged on the real volume
+			tx("B buy COINA exactly to max supply, gas COINA (fee through pool)", transaction.TypeBuyCoin, B, transaction.BuyCoinData{CoinToBuy: CoinCoinA, ValueToBuy: e18(1000000), CoinToSell: 0, MaximumValueToSell: huge}, CoinCoinA),
+			tx("B buy COINA to max supply+1pip, gas COINA (fee through pool)", transaction.TypeBuyCoin, B, transaction.BuyCoinData{CoinToBuy: CoinCoinA, ValueToBuy: pip("1000000000000000000000001"), CoinToSell: 0, MaximumValueToSell: huge}, CoinCoinA),
 		}
 		return w
 	})
